@@ -13,7 +13,7 @@ EXPLANATION = ("Necessary shape conditions decided on all paths of the six Multi
                "build that handle exactly once and fan it out exactly once on the accepted path; (R03.3) reader/writer agreement: consume(stream_id) dequeues from the same "
                "per-listener array, indexed by its stream id, that send_derived indexes by the listener id it read; (R03.4) the ogre_arc reference count pre-loaded equals the "
                "copies made (one reference consumed per iteration); (R03.5) log channel: in-order commit and subscriber bounds (shared with C09 R09.1 / R09.3); (R03.7) the poll / waker-registration protocol every listener's delivery rests on (shared with C04 R04.1/R04.2); (R03.6) a pool "
-               "slot is destroyed before it can be reused (shared with C13 R13.1) and the per-listener rings satisfy the ring shape conditions (shared with C02 R02.1-R02.3).")
+               "slot is destroyed before it can be reused (shared with C13 R13.1) and the per-listener rings satisfy the ring shape conditions (shared with C02 R02.1-R02.3). (R03.8) Multi::send / send_with / send_derived forward to the channel unchanged.")
 ASSUMPTIONS = ["per-listener ring correctness under concurrent producers is the C01/C02 question and is not decided", "listener churn during sends is C17",
                "arc crossbeam ignores try_send's answer when the sampled length is <= 2: cannot fail for sequences shorter than the buffer (the property's quantifier)"]
 
@@ -143,5 +143,10 @@ def check(ctx):
     # ------------------------------------------------------------------ R03.7 a parked listener is told about what was queued for it (poll / waker protocol, shared with C04)
     C04 = importlib.import_module("props.C04")
     C04.check_poll_protocol(util.PrefixedCtx(ctx, "R03.7"))
+    # ------------------------------------------------------------------ R03.8 the Multi API forwards to its channel unchanged
+    import delegation
+    for fn in ("send", "send_with", "send_derived"):
+        delegation.thin(ctx, "R03.8", "multi::multi::Multi::" + fn, fn, "what a producer hands to the Multi is what the channel fans out; the answer is the channel's")
+    ctx.floor("R03.8", 3)
     ctx.floor("R03.7", 8)
     ctx.floor("R03.1", 18); ctx.floor("R03.2", 20); ctx.floor("R03.3", 10); ctx.floor("R03.4", 6); ctx.floor("R03.5", 10); ctx.floor("R03.6", 20)
